@@ -1,0 +1,73 @@
+//go:build verif
+
+// Contracts for buffers with a background task (property C15, the part a
+// sequential verifier can see). Comment-only file.
+//
+// recvs(ch): number of receive operations performed on channel ch (maintained
+// by the verifier). A consuming method "does not report completion before the
+// task has finished" iff it has received from the task's completion channel on
+// every path before it returns.
+// dgValid(v): v is a well-formed digest value; the accessors of digest.Digest
+// panic on anything else, in particular on the zero value.
+package buffer
+
+//@ ghost recvs(ref) int
+//@ ufunc dgValid(str) bool
+//@ axiom !dgValid("")
+
+// Every buffer with a background task — the original and everything derived
+// from it — carries a usable digest and source besides the task.
+//@ pure bgWF(b) = b.base != nil && b.task != nil && b.task.completion != nil
+//@     && dgValid(b.digest.value) && b.source.dataIntegrityCallback != nil
+//@ typeinv casBufferWithBackgroundTask(b) = bgWF(b)
+
+//@ func (*casBufferWithBackgroundTask).decorateBuffer
+//@   requires bgWF(b) && replacement != nil
+//@   modifies nothing
+//@   ensures [clone-is-a-complete-buffer] result != nil && tinv(result)
+//@ func (*casBufferWithBackgroundTask).decorateChunkReader
+//@   requires bgWF(b) && r != nil
+//@   modifies nothing
+//@   ensures result != nil && typeis(result, "*buffer.chunkReaderWithBackgroundTask")
+//@ func (*casBufferWithBackgroundTask).decorateReader
+//@   requires bgWF(b) && r != nil
+//@   modifies nothing
+//@   ensures result != nil && typeis(result, "*buffer.readerWithBackgroundTask")
+
+//@ func (*casBufferWithBackgroundTask).GetSizeBytes
+//@   requires [usable-digest] bgWF(b)
+//@ func (*casBufferWithBackgroundTask).CloneCopy
+//@   requires bgWF(b)
+//@   ensures [clones-are-complete-buffers] result0 != nil && result1 != nil && tinv(result0) && tinv(result1)
+//@ func (*casBufferWithBackgroundTask).CloneStream
+//@   requires bgWF(b)
+//@   ensures [clones-are-complete-buffers] result0 != nil && result1 != nil && tinv(result0) && tinv(result1)
+
+// Consumption: wait for the task on every path; the data's own error wins,
+// otherwise the task's error is reported.
+//@ func (*casBufferWithBackgroundTask).IntoWriter
+//@   requires bgWF(b)
+//@   requires [passed-on-to-the-base] tinv(w) && !typeis(w, "*bytes.Buffer")
+//@   ensures [waits-for-the-task] recvs(b.task.completion) == old(recvs(b.task.completion)) + 1
+//@ func (*casBufferWithBackgroundTask).ReadAt
+//@   requires bgWF(b)
+//@   ensures [waits-for-the-task] recvs(b.task.completion) == old(recvs(b.task.completion)) + 1
+//@ func (*casBufferWithBackgroundTask).ToProto
+//@   requires bgWF(b)
+//@   ensures [waits-for-the-task] recvs(b.task.completion) == old(recvs(b.task.completion)) + 1
+//@ func (*casBufferWithBackgroundTask).ToByteSlice
+//@   requires bgWF(b)
+//@   ensures [waits-for-the-task] recvs(b.task.completion) == old(recvs(b.task.completion)) + 1
+//@ func (*casBufferWithBackgroundTask).Discard
+//@   requires bgWF(b)
+//@   ensures [waits-for-the-task] recvs(b.task.completion) == old(recvs(b.task.completion)) + 1
+
+// Streams: closing waits for the task exactly once.
+//@ func (*readerWithBackgroundTask).Close
+//@   requires r.ReadCloser != nil && r.task != nil && r.task.completion != nil
+//@   ensures [waits-for-the-task] recvs(r.task.completion) == old(recvs(r.task.completion)) + 1
+//@ func (*chunkReaderWithBackgroundTask).Close
+//@   requires r.task != nil && r.task.completion != nil
+//@   ensures [waits-once] (old(r.r) != nil ==> recvs(r.task.completion) == old(recvs(r.task.completion)) + 1 && crClosed(old(r.r)) == old(crClosed(old(r.r))) + 1)
+//@         && (old(r.r) == nil ==> recvs(r.task.completion) == old(recvs(r.task.completion)))
+//@   ensures r.r == nil
